@@ -207,9 +207,36 @@ def stack_scope(ctx):
     return hs
 
 
+def dirprod_scope(ctx):
+    """persist tasks that also have a DirectoryNode product (a provisional node: it has no state before the task ran), declared
+    before ("a") or after ("z") the file products × an edit of a dependency / the source / a product / a deleted product ×
+    plain, forced, dry-run builds, each followed by a plain build"""
+    hs = []
+    n = 0
+    for where in ("a", "z"):
+        for sub in ((1,), (0, 1)):
+            for ed in ([["write", 100, 8]], [["bump", 1]], [["write", 111, 4242]], [["delete", 111]], []):
+                for cfg in ({}, {"force": True}, {"dry": True}):
+                    n += 1
+                    if not ctx.thorough and ctx.budget == 1.0 and cfg and n % 2:
+                        continue
+                    spec = {"tasks": [
+                        {"id": 0, "module": 0, "deps": [100], "prods": [110], "after": [], "marks": [], "beh": "ok", "style": "default"},
+                        {"id": 1, "module": 1, "deps": [110], "prods": [111], "after": [], "marks": [], "beh": "ok", "style": "annotated", "dirprod": where},
+                        {"id": 2, "module": 1, "deps": [111], "prods": [112], "after": [], "marks": [], "beh": "ok", "style": "default"}],
+                        "versions": {"0": 0, "1": 0}, "inputs": {"100": 7}}
+                    for i in sub:
+                        spec["tasks"][i]["marks"].append("persist")
+                        if i == 0:
+                            spec["tasks"][0]["dirprod"] = where
+                    follow = {k: v for k, v in cfg.items() if k != "dry"} if cfg.get("dry") else {}
+                    hs.append({"tag": "dirprod", "spec": spec, "steps": [["build", {}]] + copy.deepcopy(ed) + [["build", dict(cfg)], ["build", follow]]})
+    return hs
+
+
 def histories(ctx):
     rng = ctx.rng
-    hs = small_scope(ctx) + stack_scope(ctx)
+    hs = small_scope(ctx) + stack_scope(ctx) + dirprod_scope(ctx)
     for i in range(ctx.scale(60, 900)):
         spec = engine.gen_spec(rng, nt=(2, 6), after_p=0.25, after_needs_prods=True, user_markers=True, prodless_p=0.15,
                                behs=("ok",) * 7 + ("early",),
@@ -217,6 +244,9 @@ def histories(ctx):
         if not any("persist" in t["marks"] for t in spec["tasks"]):
             rng.choice(spec["tasks"])["marks"].append("persist")
         engine.vary_decorators(rng, spec)
+        for t in spec["tasks"]:          # some persist tasks also have a directory-pattern product
+            if "persist" in t["marks"] and t["prods"] and t["beh"] == "ok" and t["style"] != "return" and rng.random() < 0.3:
+                t["dirprod"] = rng.choice(["a", "z"])
         ins = {int(k) for k in spec["inputs"]}
         for t in spec["tasks"]:           # some dependencies on inputs are hashed Python values instead of files
             hv = [d for d in t["deps"] if d in ins and rng.random() < 0.3]
